@@ -58,9 +58,15 @@ def generate(sigs):
         rlist_zoo = "(" + ", ".join(gotype(t, True) for t in rs) + ")" if rs else ""
         rlist = "(" + ", ".join(gotype(t, False) for t in rs) + ")" if rs else ""
         orig_ret = ", ".join(val(t, 200 + j, True) for j, t in enumerate(rs))
-        zoo += ["//go:noinline", "func T%d(%s) %s {" % (k, plist_zoo, rlist_zoo), "\twork(%d)" % k] + \
-               ["\t_ = p%d" % (i + 1) for i in range(len(ps))] + (["\t_ = vs"] if var else []) + \
-               (["\treturn " + orig_ret] if rs else []) + ["}", ""]
+        if s.get("tiny"):
+            # a leaf whose body is a handful of bytes (constant returner / trivial getter): shorter than the entry jump,
+            # patched only thanks to the alignment padding behind it
+            zoo += ["//go:noinline", "func T%d(%s) %s {" % (k, plist_zoo.replace("p1 ", "_ ").replace("p2 ", "_ "), rlist_zoo),
+                    ("\treturn " + orig_ret) if rs else "", "}", ""]
+        else:
+            zoo += ["//go:noinline", "func T%d(%s) %s {" % (k, plist_zoo, rlist_zoo), "\twork(%d)" % k] + \
+                   ["\t_ = p%d" % (i + 1) for i in range(len(ps))] + (["\t_ = vs"] if var else []) + \
+                   (["\treturn " + orig_ret] if rs else []) + ["}", ""]
         # callback
         checks = " && ".join([eq(t, "p%d" % (i + 1), i + 1) for i, t in enumerate(ps)] +
                              (["(len(vs) == 2 && vs[0] == 71 && vs[1] == 72)"] if var else [])) or "true"
@@ -75,7 +81,7 @@ def generate(sigs):
 
         def rescheck(base):
             return " && ".join(eq(t, "r%d" % (j + 1), base + j) for j, t in enumerate(rs)) or "true"
-        desc = "func(%s%s) (%s)" % (", ".join(ps), (", " if ps else "") + "...int" if var else "", ", ".join(rs))
+        desc = "func(%s%s) (%s)%s" % (", ".join(ps), (", " if ps else "") + "...int" if var else "", ", ".join(rs), " [tiny body]" if s.get("tiny") else "")
         drv += ["\t{", '\t\tdesc: %s,' % json_str(desc),
                 "\t\tapply: func(b *mocker.Builder, seen *bool) {",
                 "\t\t\tb.Func(zoo.T%d).Apply(func(%s) %s {" % (k, plist, rlist),
